@@ -490,8 +490,35 @@ def cloning(ctx: Ctx, rule: str) -> None:
     okq = len(q) == 1 and len(q[0].body) == 1 and ast.unparse(q[0].body[0]) == f"to_clone.append(({q[0].target.id}, clones, clone_source))"
     mark = [c for c in calls_in(body) if call_name(c) == "clone_as_source"]
     okq = okq and len(mark) == 1 and ast.unparse(mark[0]) == "clone_source.clone_as_source(clones)"
-    ctx.record(rule + "g", "COUNT", PCB, "every dependant of a cloned node is queued for cloning against the new clones; the source is marked as clone source", okq, {},
-               "" if okq else "dependants of a cloned node are no longer cloned consistently")
+    whyq = "" if okq else "dependants of a cloned node are no longer cloned consistently"
+    if okq:
+        # ... on every round: both are plain statements of the work-list loop and no round leaves it before them
+        outer = [w for w in ast.walk(body) if isinstance(w, ast.While) and any(x is q[0] for x in ast.walk(w))]
+        okq = len(outer) == 1
+        if okq:
+            w = outer[0]
+            direct = {id(s_) for s_ in w.body}
+            mark_stmt = [s_ for s_ in w.body if isinstance(s_, ast.Expr) and s_.value is mark[0]]
+            okq = id(q[0]) in direct and len(mark_stmt) == 1
+            last = max([w.body.index(q[0])] + [w.body.index(m_) for m_ in mark_stmt]) if okq else -1
+
+            def leaves(n, top=True):
+                if isinstance(n, (ast.Continue, ast.Break, ast.Return)):
+                    return True
+                if isinstance(n, (ast.For, ast.While, ast.AsyncFor)) and not top:
+                    return any(isinstance(x, ast.Return) for x in ast.walk(n))
+                if isinstance(n, (ast.FunctionDef, ast.Lambda)):
+                    return False
+                return any(leaves(c, False) for c in ast.iter_child_nodes(n))
+            early = [s_ for s_ in w.body[:last + 1] if leaves(s_, False)] if okq else []
+            if early:
+                okq = False
+                whyq = (f"a round of the cloning work list can end at line {early[0].lineno} before the source is marked as clone source and its dependants are queued "
+                        "(an unmarked source stays runnable next to its clones)")
+            elif not okq:
+                whyq = "marking the clone source / queueing its dependants became conditional"
+    ctx.record(rule + "g", "COUNT", PCB, "on every round of the cloning work list: the source is marked as clone source and every dependant of it is queued for cloning against the new clones", okq, {},
+               whyq)
     reuse = [a for a in ast.walk(loop) if isinstance(a, ast.Assert)]
     okr = len(reuse) == 1 and ast.unparse(reuse[0].test) == "len(old_clones) <= 1"
     oc = [s for s in ast.walk(loop) if isinstance(s, ast.Assign) and ast.unparse(s.targets[0]) == "old_clones"]
@@ -527,9 +554,10 @@ def bridge_table(ctx: Ctx, rule: str) -> None:
     problems = []
     n_bridge = 0
     regs = ["_picked_by_setup_nodes", "_dropped_setup_nodes", "_picked_by_cleanup_nodes", "_dropped_cleanup_nodes"]
+    in_loops = {id(x) for l in ast.walk(fn.node) if isinstance(l, (ast.For, ast.While)) for x in ast.walk(l)}
     for v in views:
         # classification by the conditions taken (the bridging itself mutates what they tested)
-        prem = norm.conj([v.cond_formula(i) for i, st in enumerate(v.steps) if st.kind == "cond"])
+        prem = norm.conj([v.cond_formula(i) for i, st in enumerate(v.steps) if st.kind == "cond" and id(st.node) not in in_loops])
         same = expr_formula(v, 0, f"{other} == self")
         equiv = expr_formula(v, 0, f"re.search({other}.bridged_form, self.params['name'])")
         known = expr_formula(v, 0, f"{other} in self._bridged_nodes")
@@ -546,16 +574,50 @@ def bridge_table(ctx: Ctx, rule: str) -> None:
                 problems.append(("re-bridging an already bridged node changes state", v))
         elif norm.implies(prem, norm.conj([norm.neg(same), equiv, norm.neg(known)])):
             n_bridge += 1
-            if sorted(apps) != sorted([f"self._bridged_nodes.append({other})", f"{other}._bridged_nodes.append(self)"]):
-                problems.append((f"bridging is not recorded symmetrically: {apps}", v))
-            want = {f"self.{r}": f"{other}.{r}" for r in regs}
-            if stores != want:
-                problems.append((f"the four visit registers are not all shared with the bridged node: {stores}", v))
+            bapps = [a for a in apps if "._bridged_nodes.append(" in a]
+            if sorted(bapps) != sorted([f"self._bridged_nodes.append({other})", f"{other}._bridged_nodes.append(self)"]):
+                problems.append((f"bridging is not recorded symmetrically: {bapps}", v))
+            rstores = {t: val for t, val in stores.items() if t.split(".")[-1] in regs}
+            if any(val != f"{other}.{t.split('.')[-1]}" for t, val in rstores.items()) or any(t.split(".")[0] == other for t in rstores):
+                problems.append((f"a visit register is re-bound to something else than the bridged node's register: {rstores}", v))
         else:
             problems.append(("unexpected path in bridge_with_node", v))
     ctx.record(rule, "TABLE", fref, "same node -> nothing; not equivalent -> ValueError; already bridged -> nothing; else both lists appended and all four registers aliased",
-               not problems and n_bridge == 1, {"paths": len(views), **({"path": problems[0][1].path.describe()} if problems else {})},
-               "" if not problems and n_bridge == 1 else (problems[0][0] if problems else "bridging path not found"))
+               not problems and n_bridge >= 1, {"paths": len(views), **({"path": problems[0][1].path.describe()} if problems else {})},
+               "" if not problems and n_bridge >= 1 else (problems[0][0] if problems else "bridging path not found"))
+    # C09.1g: the adoption reaches every node already bridged with self (register sharing must be transitive)
+    why = ""
+    sites = [a for a in ast.walk(fn.node) if isinstance(a, ast.Assign) and isinstance(a.targets[0], ast.Attribute) and a.targets[0].attr in regs]
+    roots = {ast.unparse(a.targets[0].value) for a in sites}
+    covered = {a.targets[0].attr for a in sites}
+    if covered != set(regs):
+        why = f"only {sorted(covered)} are re-bound"
+    elif len(roots) != 1:
+        why = f"the registers are re-bound on different nodes: {sorted(roots)}"
+    else:
+        holder = roots.pop()
+        loops = [l for l in ast.walk(fn.node) if isinstance(l, (ast.For, ast.While)) and all(any(a is x for x in ast.walk(l)) for a in sites)]
+        if holder == "self" or not loops:
+            why = ("only the node itself adopts the registers of the node it is bridged with: nodes bridged with it earlier keep the previous registers, so "
+                   "equivalent tests end up in groups with separate visit bookkeeping (the order of bridging decides who shares with whom)")
+        else:
+            loop = loops[-1]
+            domain = [ast.unparse(loop.iter)] if isinstance(loop, ast.For) else []
+            if isinstance(loop, ast.While):
+                work = {n_.id for n_ in ast.walk(loop.test) if isinstance(n_, ast.Name)}
+                for a in ast.walk(fn.node):
+                    if isinstance(a, ast.Assign) and any(isinstance(t, (ast.Name, ast.Tuple)) for t in a.targets) and work & norm.rebound_names(a):
+                        domain.append(ast.unparse(a.value))
+                    if isinstance(a, ast.Call) and isinstance(a.func, ast.Attribute) and a.func.attr in ("extend", "append") and ast.unparse(a.func.value) in work:
+                        domain.append(ast.unparse(a))
+            dom = " ; ".join(domain)
+            dnames = set()
+            for d_ in domain:
+                dnames |= norm.names_in(d_)
+            if "self" not in dnames or "bridged_nodes" not in dom:
+                why = f"the nodes adopting the registers are not self and the nodes bridged with it: {dom[:160]}"
+    ctx.record(rule + "g", "TABLE", fref, "the registers of the bridged node are adopted by self AND by every node already bridged with self (sharing is transitive whatever the bridging order)",
+               not why, {"stores": len(sites)}, why)
     found = list(attribute_stores(ctx.repo, "_bridged_nodes", ("cartgraph/", "plugins/", "intertest_setup.py")))
     owner_rule(ctx, rule + "o", "write to _bridged_nodes", found, {f"{N_}.__init__": "empty", fref: "symmetric append"}, 3)
     for r in regs:
@@ -909,6 +971,66 @@ def restriction_updates(ctx: Ctx, rule: str) -> None:
              and "if restriction != '':" in src)
     ctx.record(rule, "SIBLING", f"{fa.ref} / {fb.ref}", "both update_restrs: per suffix, a non-empty restriction is appended unless that exact line is already present", same and exact, {},
                "" if same and exact else "node and object restrictions are no longer accumulated alike / by whole lines (a restriction contained in another one's text would be dropped: lazy and eager parsing then differ)")
+
+
+# ---------------------------------------------------------------------- parsing helpers leave their shared inputs alone
+SHARED_FIELDS = ("restrs", "params", "_params_cache", "objects", "prefix", "recipe")
+SHARED_MUTATORS = ("update_restrs", "regenerate_params", "set_objects_from_net", "clone_as_source")
+INPUT_WRITES = {
+    # function: the writes to an input it is allowed to make (each confirmed by reading)
+    "parse_object_nodes": {"worker.net.update_restrs"},  # the worker's own net: worker specific by construction
+    "parse_branches_for_node_and_object": set(),
+    "parse_cloned_branches_for_node_and_object": set(),
+}
+
+
+def parse_inputs_readonly(ctx: Ctx, rule: str) -> None:
+    """The flat node (one per test, shared by all workers during lazy expansion) and the flat net handed to a parsing helper carry no
+    worker-specific state: no parse_*/get_* helper of TestGraph writes restrictions, parameters, objects or the prefix of an input."""
+    mod = ctx.repo.module(GRAPH)
+    cls = next(c for c in mod.body if isinstance(c, ast.ClassDef) and c.name == "TestGraph")
+    bad, checked, writes = [], 0, []
+    for f in cls.body:
+        if not isinstance(f, (ast.FunctionDef, ast.AsyncFunctionDef)) or not f.name.startswith(("parse_", "get_")):
+            continue
+        ps = {a.arg for a in f.args.args + f.args.kwonlyargs} - {"self", "cls"}
+        if not ps:
+            continue
+        checked += 1
+        ctx.touch(f"{G}.{f.name}")
+        rebound = set()
+        for s_ in f.body:
+            rebound |= norm.rebound_names(s_)
+        allowed = INPUT_WRITES.get(f.name, set())
+        for n in ast.walk(f):
+            tok = None
+            if isinstance(n, ast.Call) and isinstance(n.func, ast.Attribute) and n.func.attr in SHARED_MUTATORS:
+                tok = ast.unparse(n.func)
+            elif isinstance(n, ast.Call) and isinstance(n.func, ast.Attribute) and n.func.attr in norm.MUTATORS:
+                t = norm._mutated_token(n.func.value, receiver=True)
+                if "." in t and t.split(".")[-1] in SHARED_FIELDS:
+                    tok = t
+            elif isinstance(n, (ast.Assign, ast.AugAssign, ast.Delete)):
+                tg = n.targets if not isinstance(n, ast.AugAssign) else [n.target]
+                for t_ in tg:
+                    if isinstance(t_, (ast.Attribute, ast.Subscript)):
+                        t = norm._mutated_token(t_)
+                        if "." in t and t.split(".")[-1] in SHARED_FIELDS:
+                            tok = t
+            if tok is None:
+                continue
+            root = tok.split(".")[0]
+            if root not in ps or root in rebound:
+                continue
+            writes.append(f"{f.name}: {tok}")
+            if tok not in allowed:
+                bad.append(f"{f.name} line {n.lineno}: writes `{tok}` of its input `{root}`")
+    if checked < 20:
+        raise AnalysisError(f"{G}: only {checked} parsing helpers found")
+    ctx.record(rule, "OWNER", f"{G}.get_and_parse_objects_for_node_and_object", "no parse_*/get_* helper of TestGraph writes the restrictions, parameters, objects or prefix of a node/object it "
+               "receives (the flat node is shared by all workers during lazy expansion: what one worker writes into it restricts every later worker); "
+               "frozen exception: parse_object_nodes adds the node restrictions to the worker's own net", not bad,
+               {"helpers": checked, "writes_found": writes}, "" if not bad else bad[0])
 
 
 # ---------------------------------------------------------------------- every worker's copy is parsed alike
